@@ -184,7 +184,9 @@ func checkC01SelectBind(c *Ctx) {
 			if !ok {
 				continue
 			}
-			isCount := func(x ast.Expr) bool { return strings.HasPrefix(canon(info, x), "strings.Count(") && strings.Contains(canon(info, x), `"?"`) }
+			isCount := func(x ast.Expr) bool {
+				return strings.HasPrefix(canon(info, x), "strings.Count(") && strings.Contains(canon(info, x), `"?"`)
+			}
 			isLen := func(x ast.Expr) bool { return isLenCall(info, x) }
 			switch {
 			case isCount(be.X) && isLen(be.Y):
@@ -1023,12 +1025,13 @@ func collectClosures(v ssa.Value, out map[*ssa.Function]bool, depth int) {
 }
 
 // C17.keep-constraints / C17.recursion-bounded (added after the first C17 seed and the agent's note):
-//   keep       while sorting, the Before/After request of ANOTHER callback is rewritten only when that callback
-//              gave none itself (the field is empty): an explicit request is never overwritten
-//   bounded    the recursive sorter cannot recurse without bound: a callback naming itself, or two callbacks
-//              naming each other, must end in an error, not in a stack overflow (which kills the process -
-//              neither "an error is returned" nor "the pipeline runs").  Recognised bounds: a depth counter
-//              compared against a limit, or a visited set consulted on entry, each leading to an error return.
+//
+//	keep       while sorting, the Before/After request of ANOTHER callback is rewritten only when that callback
+//	           gave none itself (the field is empty): an explicit request is never overwritten
+//	bounded    the recursive sorter cannot recurse without bound: a callback naming itself, or two callbacks
+//	           naming each other, must end in an error, not in a stack overflow (which kills the process -
+//	           neither "an error is returned" nor "the pipeline runs").  Recognised bounds: a depth counter
+//	           compared against a limit, or a visited set consulted on entry, each leading to an error return.
 func checkC17Sorter(c *Ctx) {
 	p := c.P
 	rk := c.Rule("C17.keep-constraints", "the sorter rewrites another callback's before/after only when it is empty", 2)
